@@ -453,6 +453,21 @@ def run(p: Program, rep: Report, tier: str) -> None:
                 for k, v in zip(n.keys, n.values):
                     if isinstance(k, ast.Constant) and k.value == "type" and isinstance(v, ast.Constant) and isinstance(v.value, str) and v.value.startswith("http.response."):
                         emitted.setdefault(v.value, (f_, n))
+    # the event helpers may build the type from pieces (`{"type": f"http.response.{kind}", **fields}` in a private helper):
+    # read it off the send() calls on their paths as well
+    for f_ in list(p.module("baize.asgi.helper").functions.values()):
+        if f_.name.startswith("_") or not f_.params:
+            continue
+        try:
+            hp_, _hc, _hi = run_paths(p, f_, None)
+        except Exception:
+            continue
+        for pa_ in hp_:
+            for e_ in pa_.events:
+                if e_.kind == "call" and e_.a == ("param", f_.params[0]) and e_.b and e_.b[0][0] == "dict":
+                    for k_, v_ in e_.b[0][1]:
+                        if k_ == ("const", "type") and v_[0] == "const" and isinstance(v_[1], str) and v_[1].startswith("http.response."):
+                            emitted.setdefault(v_[1], (f_, f_.node))
     cap = nested_fn(afa, "send", passed_as_argument(afa))
     handled = set()
     if cap is not None:
